@@ -637,9 +637,11 @@ def method_self(run):
                 pass
 
             def resolve(self, ctx):
-                return ClsObj()
+                return the_class
+        the_class = ClsObj()
         fs = loader.bare_instance(S.FuncScope)
         fs.parent = CS()
+        fs.decorator_list = []
         a0 = Nm.ArgumentName([0], 'self', (1, 0), (1, 0), fs)
         a1 = Nm.ArgumentName([1], 'x', (1, 0), (1, 0), fs)
         prove('first-parameter-of-a-method-is-an-instance', fs.get_argument(None, a0) is inst, path=path)
@@ -651,7 +653,7 @@ def method_self(run):
             def evaluate(self, node):
                 name = node.id if isinstance(node, _ast.Name) else node.attr if isinstance(node, _ast.Attribute) else 'call'
                 if name in ('property', 'staticmethod', 'classmethod'):
-                    return Nm.RuntimeName(name, getattr(__builtins__, name, None) if not isinstance(__builtins__, dict) else __builtins__[name])
+                    return Nm.RuntimeName(name, getattr(__builtins__, name, None) if not isinstance(__builtins__, dict) else __builtins__[name], True)
                 return None
         for label, dec in (('property', 'property'), ('setter', 'table.setter'), ('source-decorator', 'passthrough'), ('lru_cache', 'functools.lru_cache(None)'),
                            ('two-decorators', None)):
@@ -665,8 +667,22 @@ def method_self(run):
                 r3 = e
             prove('first-parameter-of-a-decorated-method-is-an-instance[%s]' % label, r3 is inst,
                   clause='Python binds the first parameter of a %s method to the instance as for a plain method [%r]' % (label, r3), path=path)
+        # ... except where the decorator says otherwise: a classmethod is bound to the class, a staticmethod to nothing
+        for label, dec, want4 in (('classmethod', ['classmethod'], the_class), ('staticmethod', ['staticmethod'], None),
+                                  ('classmethod-under-another-decorator', ['functools.wraps(f)', 'classmethod'], the_class)):
+            fs4 = loader.bare_instance(S.FuncScope)
+            fs4.parent = CS()
+            fs4.decorator_list = [_ast.parse(d_, mode='eval').body for d_ in dec]
+            try:
+                r4 = fs4.get_argument(Ctx(), Nm.ArgumentName([0], 'cls', (1, 0), (1, 0), fs4))
+            except Exception as e:
+                r4 = e
+            prove('first-parameter-of-a-%s' % label, r4 is want4,
+                  clause='Python binds the first parameter of a classmethod to the class (instance attributes are not found through it) and the '
+                         'first parameter of a staticmethod to whatever is passed [%r]' % (r4,), path=path)
         fs2 = loader.bare_instance(S.FuncScope)
         fs2.parent = loader.bare_instance(S.SourceScope)
+        fs2.decorator_list = []
         try:
             r = fs2.get_argument(None, a0)
         except Exception as e:
